@@ -159,7 +159,7 @@ def run_chunk(ctx, name, k, reqs, budget_ms):
     start = 0
     part = 0
     nbad = 0
-    with open(merged, "w") as mf:
+    with open(merged, "w", newline="\n") as mf:
         while start < len(reqs):
             inp = ctx.path("req", "%s_%d_%d.ndjson" % (name, k, part))
             tr = ctx.path("trace", "%s_%d_%d.part" % (name, k, part))
@@ -174,7 +174,7 @@ def run_chunk(ctx, name, k, reqs, budget_ms):
             except subprocess.TimeoutExpired:
                 raise common.ToolError("vh-feaparse did not finish chunk %s_%d" % (name, k))
             outs = []
-            for l in p.stdout.splitlines():
+            for l in p.stdout.split("\n"):     # not splitlines(): U+2028 etc. inside JSON strings are not line ends
                 if l.startswith("{"):
                     try:
                         outs.append(json.loads(l))
@@ -188,7 +188,7 @@ def run_chunk(ctx, name, k, reqs, budget_ms):
                     o["rec"] += nrec
                 results[start + n] = o
             if os.path.exists(tr):
-                with open(tr) as f:
+                with open(tr, newline="\n") as f:
                     for line in f:
                         nrec += 1
                         mf.write('{"i":%d,%s' % (nrec, line[line.index(",") + 1:]))
@@ -245,7 +245,7 @@ def load_records(tr, wanted):
     out = {}
     if not wanted:
         return out
-    with open(tr) as f:
+    with open(tr, newline="\n") as f:
         for line in f:
             m = re.match(r'\{"i":(\d+),', line)
             if m and int(m.group(1)) in wanted:
